@@ -29,6 +29,7 @@ EXTENDS CopyOps, FiniteSets, TLC
 CONSTANTS Line,         \* bytes per access unit (1 << Log2AccessSize)
           NCaches,      \* caches a flush is sent to
           MaxInFlight,  \* DMAEngine.maxRequestCount
+          TrackWrites,  \* TRUE: record every byte the memory writes (history for H2DData; off for long traces)
           MCReqs,       \* MC only: set of [k, a, n] the driver may issue
           MaxReq,       \* MC only: requests per behaviour
           MemSize       \* MC only: bytes of memory
@@ -188,7 +189,7 @@ MemServe(x, data) ==
      IN IF s.k = "w"
         THEN /\ data = <<>>
              /\ mem' = [p \in DOMAIN mem |-> IF p >= s.a /\ p < s.a + s.n THEN s.d[p - s.a + 1] ELSE mem[p]]
-             /\ wrote' = wrote \cup {[id |-> o, a |-> s.a + i - 1, v |-> s.d[i]] : i \in 1..s.n}
+             /\ wrote' = IF TrackWrites THEN wrote \cup {[id |-> o, a |-> s.a + i - 1, v |-> s.d[i]] : i \in 1..s.n} ELSE wrote
              /\ UNCHANGED seen
         ELSE /\ Len(data) = s.n
              /\ seen' = [seen EXCEPT ![o] = [i \in 1..Len(@) |->
